@@ -1052,4 +1052,81 @@ theorem commentFoldsFrom_in (fx : Fixes) (ls : List Txt) (i : Nat) (start : Opti
       · exact closeBlock_in (by simp only [List.length_cons]; omega) f hf
       · rw [← hlen]; exact ih _ _ f hf
 
+/-! ### Helpers for the payee theorems of HL.Props.C08 -/
+
+/-- A line of the client's view is the mapper's line, or the mapper's line without the CR of a
+    CRLF line end. -/
+theorem docLines_lines (doc : Txt) (i : Nat) (ln : Txt) (h : (docLines doc)[i]? = some ln) :
+    ∃ l, (lines doc)[i]? = some l ∧ (l = ln ∨ l = ln ++ ['\r']) := by
+  simp only [docLines, List.getElem?_map, Option.map_eq_some_iff] at h
+  obtain ⟨l, hl, hs⟩ := h
+  refine ⟨l, hl, ?_⟩
+  unfold stripCR at hs
+  split at hs
+  · rename_i hcr
+    right
+    rw [← hs]
+    have hne : l ≠ [] := by intro e; simp [e] at hcr
+    have := List.dropLast_concat_getLast hne
+    rw [List.getLast?_eq_some_getLast hne] at hcr
+    simp only [Option.some.injEq] at hcr
+    rw [hcr] at this
+    exact this.symm
+  · left; exact hs
+
+theorem findTag_kind {tags : List Tag} {c : Cur} {h : Hit} (hh : findTagAtPosition tags c = some h) :
+    h.kind ≠ .payee := by
+  unfold findTagAtPosition at hh
+  split at hh
+  · simp at hh
+  · simp only at hh
+    split at hh <;> (simp at hh; subst hh; simp)
+
+theorem hoverPosting_kind {c : Cur} {p : Posting} {h : Hit} (hh : hoverPosting c p = some h) :
+    h.kind ≠ .payee := by
+  unfold hoverPosting at hh
+  split at hh
+  · simp at hh; subst hh; simp
+  · split at hh
+    · split at hh
+      · simp at hh; subst hh; simp
+      · exact findTag_kind hh
+    · exact findTag_kind hh
+
+theorem commodityAt_kind {c : Cur} {cm : Commodity} {h : Hit} (hh : commodityAt c cm = some h) :
+    h.kind ≠ .payee := by
+  unfold commodityAt at hh
+  split at hh
+  · simp at hh; subst hh; simp
+  · simp at hh
+
+theorem defPosting_kind {c : Cur} {p : Posting} {h : Hit} (hh : defPosting c p = some h) :
+    h.kind ≠ .payee := by
+  unfold defPosting at hh
+  split at hh
+  · simp at hh; subst hh; simp
+  · obtain ⟨cm, _, hc⟩ := List.exists_of_findSome?_eq_some hh
+    exact commodityAt_kind hc
+
+theorem defDirective_kind {c : Cur} {d : Directive} {h : Hit} (hh : defDirective c d = some h) :
+    h.kind ≠ .payee := by
+  cases d with
+  | account a tags cmt sub r =>
+    simp only [defDirective] at hh
+    split at hh
+    · simp at hh; subst hh; simp
+    · simp at hh
+  | commodity cm f n sub r =>
+    simp only [defDirective] at hh
+    split at hh
+    · simp at hh; subst hh; simp [directiveCommodityHit]
+    · simp at hh
+  | price dt cm p r =>
+    simp only [defDirective] at hh
+    split at hh
+    · simp at hh; subst hh; simp [directiveCommodityHit]
+    · exact commodityAt_kind hh
+  | year y r => simp [defDirective] at hh
+  | defaultCommodity sy f r => simp [defDirective] at hh
+
 end HL.Lemmas.Ranges
